@@ -145,6 +145,14 @@ def oracle_c12(script, ig, mg):
             # fields are private): the implementation refused to decode a valid encoding
             fails.append(("valid-state-encoding-does-not-decode", {"group": i, "cmd": script[i][:120]}))
             break
+        if i < len(script) and script[i].startswith("encw ") and a.line.startswith("enc "):
+            # compare with the plain `enc` of the same record (two lines above: enc, rt, encw)
+            base = next((ig[j].line for j in range(i - 1, max(-1, i - 3), -1)
+                         if j < len(script) and script[j].startswith("enc ") and script[j][4:] == script[i].split(" ", 2)[2]), None)
+            if base is not None and base != a.line:
+                fails.append(("encoding-depends-on-how-the-writer-accepts-bytes",
+                              {"group": i, "cmd": script[i][:100], "whole": base[:80], "dribbled": a.line[:80]}))
+                break
         if a.line.startswith("rt ") and not re.fullmatch(r"rt ok \d+", a.line):
             fails.append(("big-record-does-not-round-trip", {"group": i, "impl": a.line, "cmd": script[i][:80]}))
             break
@@ -330,6 +338,20 @@ def oracle_c15(script, ig, mg):
     """Accounting on the implementation alone: reported item count and size
     equal what the resident list says (every `stat` is followed by `res`)."""
     fails = []
+    # after the worker is idle and the evictable entries are drained: nothing at or below the boundary
+    for j, l in enumerate(script):
+        if l != "drain":
+            continue
+        gi = len(primary_cmds(script[:j]))
+        if gi < 1 or gi + 1 >= len(ig) or not ig[gi - 1].line.startswith("wst idle"):
+            continue
+        a, b = ig[gi].line, ig[gi + 1].line
+        m = re.search(r"cache=(\d+):(\d+):(\d+):(\d+):(\S+)", a) if a.startswith("stat ") else None
+        if m and b.startswith("res") and m.group(5) != "-":
+            bd = tuple(int(x) for x in m.group(5).split(","))
+            low = [x for x in b.split()[1:] if tuple(int(v) for v in x.split(":")[0].split(",")) <= bd]
+            if low:
+                return [("resident-at-or-below-boundary-after-drain", {"group": gi, "stat": a, "res": b, "low": low})]
     for i in range(len(ig) - 1):
         a, b = ig[i].line, ig[i + 1].line
         if a.startswith("stat ") and b.startswith("res"):
@@ -1520,6 +1542,13 @@ def scripts_c14(tier, rng):
         lines += ["flush 9000"]
         k = r.below(4)
         lines += ["wack 9000"] if k else ["widle"]
+        if i % 4 == 2:
+            # writes after the acknowledged flush that are never flushed (they may rotate the chunk, which
+            # queues the old tail for the worker): dropped with the store, the reopen shows a prefix
+            for _ in range(1 + r.below(4)):
+                w = r.choice([g.op_append, g.op_append, g.op_vote, g.op_commit])()
+                if w:
+                    lines.append(w)
         lines += ["st", f"read 0 {U64MAX}", "dir",
                   "dropslow" if (i % 25 == 7 and k) else ("droppanic" if r.chance(1, 4) else "drop"), "dir", g.cfg_line(),
                   "open", "st", f"read 0 {U64MAX}"]
